@@ -981,6 +981,44 @@ fn decode_impl2(bytes: &[u8], opts: &Options, slot: Option<usize>, header_only: 
     }))
 }
 
+/// The transaction id recorded in the saved allocator state (system table "allocator_state", key
+/// TransactionId = [5, 0, 0, 0, 0]) of the given commit slot; None if the slot carries no saved state.
+/// redb trusts the saved state only if this id equals the slot's own transaction id.
+pub fn allocator_state_txn(bytes: &[u8], opts: &Options, slot: usize) -> Result<Option<u64>, String> {
+    let h = decode_header(bytes, opts)?;
+    let ps = h["page_size"].as_u64().unwrap();
+    let l = &h["layout"];
+    let img = Image {
+        bytes,
+        page_size: ps,
+        region_header_pages: l["region_header_pages"].as_u64().unwrap(),
+        region_max_data_pages: l["region_max_data_pages"].as_u64().unwrap(),
+        emitted: std::cell::Cell::new(0),
+        budget: bytes.len() as u64 / ps + 16,
+    };
+    let s = parse_slot(&bytes[HEADER_LEN + slot * SLOT_LEN..], "slot")?;
+    let master = walk_tree(&img, s.system_root, None, None)?;
+    for rec in &master {
+        let Node::Leaf(leaf) = &rec.node else { continue };
+        for (name_raw, def_raw) in leaf.keys.iter().zip(leaf.values.iter()) {
+            if name_raw.as_ref() as &[u8] != b"allocator_state" {
+                continue;
+            }
+            let def = parse_table_def(def_raw, "allocator_state")?;
+            for rec in &walk_tree(&img, def.root, def.fixed_key, def.fixed_value)? {
+                let Node::Leaf(leaf) = &rec.node else { continue };
+                for (k, v) in leaf.keys.iter().zip(leaf.values.iter()) {
+                    if k.first() == Some(&5) && v.len() == 8 {
+                        return Ok(Some(u64::from_le_bytes(v[..8].try_into().unwrap())));
+                    }
+                }
+            }
+            return Ok(None);
+        }
+    }
+    Ok(None)
+}
+
 /// Every page referenced by any tree of a decoded image, in tree order, duplicates preserved (so
 /// that a caller can detect double references). Each entry is `[region, index, order]`.
 pub fn allocated_pages(decoded: &Value) -> Vec<[u64; 3]> {
